@@ -91,6 +91,8 @@ def variants(cfg, ck):
     k = len(cfg["targets"])
     ident = list(range(k))
     vs = [dict(name="base", order=ident, cores=1)]
+    if cfg.get("_cores_only"):
+        return vs + [dict(name=f"cores{c}", order=ident, cores=c) for c in (2, 3)]
     for c in ([2, 3, 4, -13] if ck.quick else [2, 3, 4, 5, -13, -15]):
         vs.append(dict(name=f"cores{c}", order=ident, cores=c))
     for perm in itertools.permutations(ident):
@@ -128,7 +130,19 @@ def configs(ck):
                 c["targets"] = [[wall, hq - 1], [wall * float(rng.uniform(1.4, 2.5)), hq], [wall, hq]][: int(rng.integers(2, 4))]
                 c["scvar"], c["xif"] = "expanded", float(rng.choice([0.5, 2.0]))
                 c["inversion"] = None
+            if i % 3 == 2:
+                c["is_log"] = False  # linear interpolation: the flag has to survive the trip to the pool workers
             cfgs.append(c)
+    # coupling reference exactly on a matching scale, NNLO, path crossing it: the matching coefficient is
+    # evaluated lazily inside the integration kernels, in the parent (1 core) or in the workers (several cores)
+    for _ in range(ck.n(1, 4)):
+        c = w.path_cfg(rng, qcd=3, nf_pairs=[(4, 5)], max_targets=1, npts=(3,), methods=["truncated"])
+        mb = c["masses"][1] * c["ratios"][1]
+        c["ref"] = [mb, 4]
+        c["alphas"] = 0.21
+        c["init"], c["targets"] = [max(1.6, mb / 2.2), 4], [[mb * 2.5, 5]]
+        c["_cores_only"] = True
+        cfgs.append(c)
     return cfgs
 
 
